@@ -336,6 +336,21 @@ func checkC14(c C14Case) (o Outcome) {
 	} else {
 		o.class("binary-strings")
 	}
+	// 3b. the disassembler object is reusable: a listing does not depend on what the same
+	// handler parsed before (another valid program, a verify-only pass, a malformed one)
+	{
+		ph := vm.NewParseHandler().WithDefaultHandlers()
+		first, err1 := ph.ToString(enc)
+		half := vmEncodeAll(ins[:(len(ins)+1)/2])
+		_, _ = ph.ParseAll(half)
+		second, err2 := ph.ToString(enc)
+		_, _ = ph.ToString(enc[:len(enc)-1]) // usually malformed
+		third, err3 := ph.ToString(enc)
+		if err1 != nil || err2 != nil || err3 != nil || first != text || second != text || third != text {
+			o.Viol = viol("listing-depends-on-history", "a reused ParseHandler lists the same program differently: fresh %q; after ParseAll of another program %q (%v); after a failed ToString %q (%v)", text, second, err2, third, err3)
+			return
+		}
+	}
 	// 4. reference decoder
 	dec, _, derr := refdec.DecodeAll(enc)
 	if derr != nil || !refdec.Equal(dec, ins) {
